@@ -2334,3 +2334,116 @@ func ruleTraversalContextsNotMutated(c *core.Ctx) {
 		c.Undecided(rule, "anchor/contexts", 0, "no function of pkg/dsl receives a traversal context struct by pointer")
 	}
 }
+
+func init() {
+	reg("C10", ruleDoublingLoopsCannotWrap)
+	reg("C13", ruleDoublingLoopsCannotWrap)
+}
+
+// ---------------------------------------------------------------------------------------------------------------
+// LW1: a loop that doubles (or shifts left) a value until it exceeds a bound terminates only if the value cannot
+// wrap. On a math/big value it cannot; on a machine integer `for x <= bound { x <<= 1 }` never ends once bound has
+// its top bit set: x becomes 0 and stays below the bound for ever (`!flags` values: a member without a value after
+// one whose explicit value is 0x8000000000000000 — `yardl validate` hangs instead of reporting the overflow).
+// ---------------------------------------------------------------------------------------------------------------
+func ruleDoublingLoopsCannotWrap(c *core.Ctx) {
+	const rule = "LW1"
+	c.Rule(rule, "pkg/dsl, pkg/packaging, internal/*: a `for` loop whose condition compares a value that the loop doubles or shifts left works on a math/big value, or tests the value against zero as well (a machine integer wraps to 0 and the loop never ends)", 1)
+	n := 0
+	for _, d := range c.AllDecls() {
+		p := c.DeclPkg(d)
+		if p == nil || d.Body == nil || c.IsTestFile(d.Pos()) || !strings.Contains(p.PkgPath, "/yardl/tooling/") {
+			continue
+		}
+		info := p.TypesInfo
+		ast.Inspect(d.Body, func(m ast.Node) bool {
+			fs, ok := m.(*ast.ForStmt)
+			if !ok || fs.Cond == nil {
+				return true
+			}
+			// what the loop doubles: x <<= k, x *= k, x = x << k, x = x * k (machine integers); X.Lsh(X, k), X.Mul(X, k) (big)
+			var machine types.Object
+			big := false
+			scan := func(node ast.Node) {
+				if node == nil {
+					return
+				}
+				ast.Inspect(node, func(k ast.Node) bool {
+					switch y := k.(type) {
+					case *ast.FuncLit, *ast.ForStmt, *ast.RangeStmt:
+						return false // nested loops are judged on their own
+					case *ast.AssignStmt:
+						if len(y.Lhs) != 1 || len(y.Rhs) != 1 {
+							return true
+						}
+						o := identObj(info, y.Lhs[0])
+						if o == nil {
+							return true
+						}
+						if b, ok := o.Type().Underlying().(*types.Basic); !ok || b.Info()&types.IsInteger == 0 {
+							return true
+						}
+						switch y.Tok {
+						case token.SHL_ASSIGN, token.MUL_ASSIGN:
+							machine = o
+						case token.ASSIGN:
+							if be, ok := ast.Unparen(y.Rhs[0]).(*ast.BinaryExpr); ok && (be.Op == token.SHL || be.Op == token.MUL) && identObj(info, ast.Unparen(be.X)) == o {
+								machine = o
+							}
+						}
+					case *ast.CallExpr:
+						if se, ok := y.Fun.(*ast.SelectorExpr); ok && (se.Sel.Name == "Lsh" || se.Sel.Name == "Mul") {
+							if nt := core.NamedOf(derefType(info.TypeOf(se.X))); nt != nil && nt.Obj().Pkg() != nil && nt.Obj().Pkg().Path() == "math/big" {
+								big = true
+							}
+						}
+					}
+					return true
+				})
+			}
+			scan(fs.Body)
+			scan(fs.Post)
+			if machine == nil && !big {
+				return true
+			}
+			n++
+			if machine == nil {
+				c.OK(rule, fmt.Sprintf("%s/doubling loop#%d", c.FuncName(d), n), fs.Pos(), "doubles a math/big value: no wrap-around")
+				return true
+			}
+			// the condition compares the doubled value; does it (or the body) also test it against zero?
+			compares, zeroTest := false, false
+			check := func(node ast.Node) {
+				ast.Inspect(node, func(k ast.Node) bool {
+					be, ok := k.(*ast.BinaryExpr)
+					if !ok {
+						return true
+					}
+					l, r := identObj(info, ast.Unparen(be.X)), identObj(info, ast.Unparen(be.Y))
+					if l != machine && r != machine {
+						return true
+					}
+					switch be.Op {
+					case token.LSS, token.LEQ, token.GTR, token.GEQ:
+						compares = true
+					case token.EQL, token.NEQ:
+						for _, side := range []ast.Expr{be.X, be.Y} {
+							if tv, ok := info.Types[side]; ok && tv.Value != nil && tv.Value.String() == "0" {
+								zeroTest = true
+							}
+						}
+					}
+					return true
+				})
+			}
+			check(fs.Cond)
+			check(fs.Body)
+			c.Check(!compares || zeroTest, rule, fmt.Sprintf("%s/doubling loop#%d", c.FuncName(d), n), fs.Pos(), "the loop cannot spin on a wrapped value",
+				"`"+machine.Name()+"` is a machine integer that the loop doubles until it exceeds a bound, and nothing tests it against zero: for a bound with the top bit set it wraps to 0 and the loop never ends — the process hangs instead of reporting a value that does not fit")
+			return true
+		})
+	}
+	if n == 0 {
+		c.Undecided(rule, "anchor/doubling loops", 0, "none found")
+	}
+}
